@@ -1,7 +1,7 @@
 (* C10: Reward distribution splits the amount exactly.
    Model: Model/StakePool.v (DistributeRewards, DistributeRewardsRandN, equallyDistributeRewards).
    Only statements; each is closed by [exact] of a lemma in Proof/StakePool.v. *)
-From ZC Require Import Model.StakePool Proof.StakePool.
+From ZC Require Import Model.StakePool Proof.StakePool Proof.StakePoolF64.
 Open Scope Z_scope.
 
 Definition C10_ratio_in_unit (r : f64) : Prop := sp_ratio_in_unit r.
@@ -115,16 +115,18 @@ Proof. exact sp_skip_gets_nothing. Qed.
 Print Assumptions C10_killed_or_understaked_gets_nothing.
 
 (* each delegate's share is proportional to its stake up to rounding: if the float product is
-   within eps of the exact share, every increment is within (n+1)*eps + 1 of value_left*b_i/stake *)
+   within eps of the exact share (for stakes b <= s < 2^64 and amounts up to vmax), every
+   increment is within (n+1)*eps + 1 of value_left*b_i/stake *)
 Theorem C10_share_proportional :
-  forall (chargef : f64 -> Z -> option Z) (sharef : Z -> Z -> Z -> option Z) (eps : Z),
+  forall (chargef : f64 -> Z -> option Z) (sharef : Z -> Z -> Z -> option Z) (eps vmax : Z),
   0 <= eps ->
   (forall a b c r, sharef a b c = Some r -> 0 <= r) ->
-  (forall vl b s r, 0 < s -> sharef vl b s = Some r -> Z.abs (r * s - vl * b) <= eps * s) ->
+  (forall vl b s r, 0 < s < sp_max -> 0 <= b <= s -> 0 <= vl <= vmax ->
+     sharef vl b s = Some r -> Z.abs (r * s - vl * b) <= eps * s) ->
   forall sp value sp' charge incs stake,
   sp_wf sp -> 0 < value -> sp_total_rewards sp + value < sp_max ->
   (forall c, chargef (ss_charge (sp_set sp)) value = Some c -> 0 <= c) ->
-  sp_stake sp = Some stake ->
+  sp_stake sp = Some stake -> value <= vmax ->
   sp_distribute_body chargef sharef sp value = SpOk (sp', charge, incs) -> sp_pools sp <> [] ->
   exists e, sp_cred (sp_pools sp) e (sp_pools sp') /\ sp_sum e = value - charge /\
     forall i, (i < length (sp_pools sp))%nat ->
@@ -132,6 +134,33 @@ Theorem C10_share_proportional :
       <= ((Z.of_nat (length (sp_pools sp)) + 1) * eps + 1) * stake.
 Proof. exact sp_share_proportional. Qed.
 Print Assumptions C10_share_proportional.
+
+(* the float bound itself, for the expression as Go computes it (two uint64 -> float64
+   conversions, one division, one multiplication, truncation): proved with Flocq over the
+   SpecFloat operations; this theorem and the next depend on the real-number axioms of the Coq
+   standard library (through Flocq/Reals), the other C10 theorems do not *)
+Theorem C10_float_share_within_rounding :
+  forall vl b s r,
+  0 <= b <= s -> 0 < s < 2 ^ 64 -> 0 <= vl < 2 ^ 63 ->
+  sp_sharef_go vl b s = Some r ->
+  Z.abs (r * s - vl * b) <= (2 + vl / 2 ^ 50) * s.
+Proof. exact sp_sharef_go_accurate. Qed.
+Print Assumptions C10_float_share_within_rounding.
+
+(* proportionality of DistributeRewards with the real binary64 code, no float hypothesis:
+   every delegate's increment is within (n+1)*(2 + value/2^50) + 1 of value_left*b_i/stake,
+   for every paid value below 2^63 *)
+Theorem C10_share_proportional_f64 :
+  forall sp value sp' charge incs stake,
+  sp_wf sp -> 0 < value < 2 ^ 63 -> sp_total_rewards sp + value < sp_max ->
+  sp_stake sp = Some stake ->
+  sp_distribute_body sp_chargef_go sp_sharef_go sp value = SpOk (sp', charge, incs) -> sp_pools sp <> [] ->
+  exists e, sp_cred (sp_pools sp) e (sp_pools sp') /\ sp_sum e = value - charge /\
+    forall i, (i < length (sp_pools sp))%nat ->
+      Z.abs (nth i e 0 * stake - (value - charge) * dp_bal (nth i (sp_pools sp) sp_dflt))
+      <= ((Z.of_nat (length (sp_pools sp)) + 1) * (2 + value / 2 ^ 50) + 1) * stake.
+Proof. exact sp_share_proportional_f64. Qed.
+Print Assumptions C10_share_proportional_f64.
 
 (* Non-vacuity: the run of the real code on value 1000, ratio 0.3, stakes 1,2,3 (credited
    300 + 117 + 233 + 350) satisfies all hypotheses of the theorems above. *)
